@@ -121,7 +121,7 @@ func (c *rateLimitConfig) validate() (err error) {
 		return errors.ErrNoValue
 	}
 
-	return cmp.Or(
+	err = cmp.Or(
 		validateProp("allowlist", c.Allowlist.validate),
 		validateProp("connection_limit", c.ConnectionLimit.validate),
 		validateProp("ipv4", c.IPv4.validate),
@@ -133,6 +133,29 @@ func (c *rateLimitConfig) validate() (err error) {
 		validatePositive("backoff_period", c.BackoffPeriod),
 		validatePositive("response_size_estimate", c.ResponseSizeEstimate),
 	)
+	if err != nil {
+		return err
+	}
+
+	// The subnet key lengths must fit the addresses of their families.
+	switch {
+	case c.IPv4.SubnetKeyLen > netutil.IPv4BitLen:
+		return fmt.Errorf(
+			"ipv4: subnet_key_len: %w: got %d, max %d",
+			errors.ErrOutOfRange,
+			c.IPv4.SubnetKeyLen,
+			netutil.IPv4BitLen,
+		)
+	case c.IPv6.SubnetKeyLen > netutil.IPv6BitLen:
+		return fmt.Errorf(
+			"ipv6: subnet_key_len: %w: got %d, max %d",
+			errors.ErrOutOfRange,
+			c.IPv6.SubnetKeyLen,
+			netutil.IPv6BitLen,
+		)
+	default:
+		return nil
+	}
 }
 
 // allowListConfig is the consul allow list configuration.
